@@ -82,6 +82,7 @@ def correspond(ctx):
     c.nontrivial = len(seen)
     days = [x for x in tcases if x["k"] == "nday"]
     ctx.extra["traced_days_n_budget"] = len(days)
+    ctx.extra["file_irrigation_events_checked_against_the_file"] = sum(x.get("file_irrigations_checked", 0) for x in tcases if x["k"] == "run")
     ctx.extra["max_abs_n_residual"] = max([abs(d["res"]) for d in days] or [0.0])
     ctx.extra["traced_days_clamp_free"] = sum(1 for d in days if d["clean"])
     c.samples = [{k: (v if not isinstance(v, list) else v[:4]) for k, v in x["in"].items()} for x in allc[:2] if x["k"] == "nmove"]
@@ -91,7 +92,8 @@ def correspond(ctx):
 
 
 ORACLE_KEYS = ("transport-balance", "transport-removes-n", "instability-flag", "n-balance-loss", "n-balance-gain",
-               "deposition", "irrigation-n", "denit-removes-more-than-counted", "denit-balance")
+               "deposition", "irrigation-n", "irrigation-file-n", "irrigation-not-in-file", "negative-dissolution",
+               "denit-removes-more-than-counted", "denit-balance")
 
 
 def oracle(ctx, search):
@@ -104,6 +106,6 @@ def oracle(ctx, search):
         fails.append(Fail(key="trace-crash", what="traced run aborted", stderr=terr[-800:]))
     for l in orc + torc:
         if l.startswith(ORACLE_KEYS):
-            fails.append(Fail(key=re.sub(r"(residual|delta|expected|before|after|counted|min-preclamp)=\S+", "", l)[:100].strip(), what=l))
+            fails.append(Fail(key=re.sub(r"(residual|delta|expected|before|after|counted|min-preclamp|zeit|water|file-mm|delta-minus-deposition|file-n|ums-before|ums-after|dsumm)=\S+", "", l)[:100].strip(), what=l))
     fails += daynlib.oracle_day(ctx, daynlib.C02_KEYS if ctx.id == "C02" else daynlib.C07_KEYS) or []
     return fails
